@@ -4,6 +4,8 @@ use serde_json::{json, Value as J};
 use std::path::PathBuf;
 use std::time::Instant;
 
+/// Panics of the code under test that happened on threads the harness does not run itself.
+pub static UNDER_TEST_PANICS: std::sync::Mutex<Vec<String>> = std::sync::Mutex::new(Vec::new());
 thread_local! { pub static QUIET: std::cell::Cell<bool> = const { std::cell::Cell::new(false) }; }
 
 pub struct Ctx {
@@ -131,6 +133,12 @@ impl Ctx {
 
   /// Writes the evidence file, prints KNOWN-FINDING / VIOLATION lines, exits.
   pub fn finish(mut self) -> ! {
+    // panics of the code under test on threads of its own (service workers): each is a violation
+    let panics: Vec<String> = UNDER_TEST_PANICS.lock().map(|mut g| std::mem::take(&mut *g)).unwrap_or_default();
+    for p in panics {
+      let where_ = p.split(" at ").nth(1).or_else(|| p.split("panicked at ").nth(1)).unwrap_or("").split(':').next().unwrap_or("").trim_start_matches("/repo/").to_string();
+      self.reject(&[format!("panic-on-service-thread:{}", where_)], json!({"record": {"panic": p}}), &format!("the code under test panicked on a thread of its own: {}", p.replace('\n', " ")));
+    }
     let wall = self.start.elapsed().as_secs_f64();
     if !self.coverage.contains_key("samples") {
       self.coverage.insert("samples".into(), json!([]));
